@@ -262,6 +262,22 @@ def splice_case(ctx, n):
         ctx.state(('splice', n, i))
         judge(ctx, [w, lock], cache, False, {'lock': 'delegate_key_chain_lock', 'deviation': 'cross-chain splice'},
               f'chain {n}: certificate {i} taken from another chain', t)
+    # a witness that brings its own function definitions (the chain lock keeps its checks in functions): the lock's own definitions
+    # are the ones that run - an honest chain still unlocks, nothing else does
+    blk = lambda b: len(b).to_bytes(2, 'big') + b
+    honest = chain_witness(seed, good, 'd%d' % n, fields)
+    foreign = chain_witness(seed, good, 'd%d' % n, fields, chain='y') if n <= 3 else None
+    for h in (0, 1, 2):
+        for bname, body in (('true', op('TRUE')), ('pop0 true', op('POP0') + op('TRUE')), ('empty', b''), ('return', op('TRUE') + op('RETURN'))):
+            d = op('DEF') + bytes([h]) + blk(body)
+            for wname, wbytes, want in (('honest chain', d + honest, True), ('nothing else', d, False), ('a true', d + op('TRUE'), False),
+                                        ('chain under a foreign root', None if foreign is None else d + foreign, False)):
+                if wbytes is None:
+                    continue
+                cnt += 1
+                ctx.state(('own definitions', n, h, bname, wname))
+                judge(ctx, [wbytes, lock], cache, want, {'lock': 'delegate_key_chain_lock', 'deviation': 'witness defines function'},
+                      f'chain {n}: witness defines function {h} as {{{bname}}} and supplies {wname}', t)
     if n >= 2:
         for order in itertools.permutations(range(n)):
             if list(order) == list(range(n)) or (n > 3 and order[0] == 0 and order[-1] == n - 1 and n > 4):
